@@ -445,6 +445,9 @@ class PlanJoinTablesQuery:
 
         def _check_conditions(node, **kwargs):
             if not isinstance(node, BinaryOperation):
+                if isinstance(node, ast.Operation):
+                    # NOT, BETWEEN, functions ...: comparisons below them are not top-level conjuncts of the ON clause
+                    binary_ops.add(node.op.lower())
                 return
 
             arg1, arg2 = node.args
@@ -482,6 +485,9 @@ class PlanJoinTablesQuery:
 
         def _check_conditions(node, **kwargs):
             if not isinstance(node, BinaryOperation):
+                if isinstance(node, ast.Operation):
+                    # NOT, BETWEEN, functions ...: comparisons below them are not top-level conjuncts of the ON clause
+                    binary_ops.add(node.op.lower())
                 return
 
             if node.op != '=':
